@@ -340,7 +340,7 @@ def tcp_reader():
             gw.on_conn_lost = C.Recorder2(lost)
             reconnects = []
             proto.conn_lost_callback = C.Recorder0(reconnects)
-            script = {"iter": 0, "first_error": None, "events": []}
+            script = {"iter": 0, "first_error": None, "events": [], "checks": 0, "unchecked": 0}
             steps = 3
 
             class Sock:
@@ -381,6 +381,7 @@ def tcp_reader():
             env.add(_select.select, select_stub, "select.select")
 
             def check_conn():
+                script["checks"] += 1
                 what = w.pick(["ok", "watchdog"], f"check{script['iter']}")
                 script["events"].append(f"check:{what}")
                 if what == "watchdog":
@@ -392,6 +393,8 @@ def tcp_reader():
 
             def sleeper(a, k):
                 script["iter"] += 1
+                if script["checks"] < script["iter"]:
+                    script["unchecked"] += 1  # an iteration that did not poll the link watchdog
                 if script["iter"] >= steps:
                     holder["t"].alive = False  # stop() from the user
                 return None
@@ -407,6 +410,9 @@ def tcp_reader():
                     w.escaped(exc, "TCPTransport.run raised")
             w.check(len(made) == 1, f"on_conn_made called {len(made)}x for one connection")
             w.check(len(lost) == 1, f"on_conn_lost called {len(lost)}x for one connection")
+            w.check(script["unchecked"] == 0,
+                    "the reader loop went round without polling the link watchdog (a silent link "
+                    "would never be dropped)")
             err = lost[0][1] if lost else None
             exceptional = any(e == "select:exceptional" for e in script["events"])
             if script["first_error"] is not None:
@@ -420,6 +426,55 @@ def tcp_reader():
                     "reconnect attempts do not match the loss (error => one attempt)")
             w.check(t.protocol is None and t.alive is False, "reader not shut down after the loss")
             w.goal("lost-with-error" if err is not None else "stopped")
+    return fn
+
+
+def async_watchdog_chain(polls):
+    """(a') asyncio TCP gateway: check_connection re-arms itself after every poll with a delay of
+    about reconnect_timeout, so a link that stays silent is dropped (closed + re-dialled) at the
+    first poll later than 2 x reconnect_timeout after the last answer."""
+    def fn(w):
+        env = C.make_env(w)
+        with env.installed():
+            R = w.fresh_real("R", 0)
+            w.assume_fast(w.lt(0, R))
+            t0 = w.fresh_real("t0", 0)
+            env.frozen = t0
+            gw = tcp_gateway(w, "async", R)
+            tr = gw.tasks.transport
+            conn = C.FakeConn()
+            tr.protocol.transport = conn
+            redials = []
+            tr.protocol.conn_lost_callback = C.Recorder0(redials)
+            gw.tcp_check_timer = t0
+            gw.tcp_disconnect_timer = t0
+            w.info = {"R": R, "t0": t0, "polls": polls}
+            now = t0
+            try:
+                w.call(gw.check_connection)  # what async_connect does after connecting
+                for i in range(polls):
+                    pending = [h for h in env.loop.handles if not h.cancelled and not
+                               getattr(h, "fired", False)]
+                    if len(redials) > 0:
+                        break
+                    w.check(len(pending) == 1,
+                            f"after poll {i} the asyncio link watchdog is not armed exactly once "
+                            f"({len(pending)} pending timers)")
+                    h = pending[0]
+                    w.check(w.and_(w.lt(0, h.delay), w.le(h.delay, w.add(R, 1))),
+                            "watchdog period is not about reconnect_timeout")
+                    h.fired = True
+                    now = w.add(now, h.delay)
+                    env.frozen = now
+                    w.call(h.fn, *h.args)
+            except Exception as exc:
+                w.escaped(exc, "asyncio watchdog raised")
+            # a silent link: dropped by the first poll later than 2R, i.e. within 3 periods
+            w.check(len(redials) == 1 and conn.closed,
+                    "a silent link was not dropped and re-dialled by the asyncio watchdog")
+            w.check(w.le(w.sub(now, t0), w.add(w.mul(3, R), 3)),
+                    "silent link dropped much later than 2 x reconnect_timeout")
+            w.goal("dropped")
     return fn
 
 
@@ -555,6 +610,9 @@ def build(tier):
         Harness("watchdog-R", watchdog("R"),
                 {"polls": K, "latency_bound": "R (the statement as written)"},
                 goals=["alive", "dropped"], doc="answered within R => never dropped"),
+        Harness("async-watchdog-chain", async_watchdog_chain(5),
+                {"polls": "<= 5", "R": "symbolic > 0", "link": "silent"}, goals=["dropped"],
+                doc="asyncio TCP watchdog re-arms itself; silent link dropped and re-dialled"),
         Harness("events", events(), {"protocols": sorted(protocol_classes())},
                 goals=["made", "lost(None)", "lost(exc)", "made+lost(exc)+made", "peer-close"],
                 doc="callbacks exactly once per connection event; reconnect on error"),
